@@ -618,3 +618,50 @@ Proof.
   - exact P1.
   - exact P3.
 Qed.
+
+(* ================================================================== statements for props/C13.v *)
+Lemma run_loop_iff bps T its s s' st n : st <> SFuel ->
+  (run_loop bps T O its s = (s', st, n) <-> first_stop bps T its s s' st n).
+Proof.
+  intro Hf. split.
+  - intro H. destruct (run_loop_first_stop bps T its O s s' st n H Hf) as (n' & En & Hfs).
+    cbn in En. subst n'. exact Hfs.
+  - intro H. exact (first_stop_run_loop bps T its O s s' st n H).
+Qed.
+
+Lemma first_stop_unique bps T its s s1 st1 n1 s2 st2 n2 :
+  first_stop bps T its s s1 st1 n1 -> first_stop bps T its s s2 st2 n2 ->
+  s1 = s2 /\ st1 = st2 /\ n1 = n2.
+Proof.
+  intros H1 H2.
+  pose proof (first_stop_run_loop bps T its O s s1 st1 n1 H1) as E1.
+  pose proof (first_stop_run_loop bps T its O s s2 st2 n2 H2) as E2.
+  rewrite E1 in E2. inversion E2. auto.
+Qed.
+
+Lemma run_while_mcr_pre bps T its sp sp' r n j it :
+  run_while bps T its sp = (sp', r, n) -> r <> RFuel ->
+  nth_error its j = Some it -> it_pre it = true -> (n <= j)%nat.
+Proof.
+  intros H Hr Hn Hp. apply (run_while_is_iter _ _ _ _ _ _ _ Hr) in H. destruct H as (s1 & st & Hfs & _).
+  exact (mcr_pre_zero_more _ _ _ _ _ _ _ _ _ Hfs Hn Hp).
+Qed.
+
+Lemma run_while_mcr_mid bps T its sp sp' r n j it :
+  run_while bps T its sp = (sp', r, n) -> r <> RFuel ->
+  nth_error its j = Some it -> it_mid it = true ->
+  (forall b b', iter_steps its j (start (fst sp)) = Some b -> exec_iter it b = (b', inl tt) -> s_mcr b' = false) ->
+  (n <= S j)%nat.
+Proof.
+  intros H Hr Hn _ Hoff. apply (run_while_is_iter _ _ _ _ _ _ _ Hr) in H. destruct H as (s1 & st & Hfs & _).
+  exact (mcr_mid_one_more _ _ _ _ _ _ _ _ _ Hfs Hn Hoff).
+Qed.
+
+(* the MCR is off after every call that returns (the loop is left through the store) *)
+Lemma run_while_mcr_off bps T its sp sp' r n :
+  run_while bps T its sp = (sp', r, n) -> r = ROk \/ (exists e, r = RErr e) -> s_mcr (fst sp') = false.
+Proof.
+  rewrite run_while_finish. destruct (run_loop bps T 0 its (start (fst sp))) as [[s1 st] n0].
+  intros H Hr. injection H as H _. destruct st; cbn in H; injection H as H1 H2; subst; try reflexivity;
+    destruct Hr as [Hr|[e Hr]]; discriminate.
+Qed.
